@@ -42,6 +42,9 @@ EXTRACTORS = {"docx": "read_docx", "pptx": "read_pptx", "xlsx": "read_xlsx", "od
               "ods": "read_ods", "odg": "read_odg", "epub": "read_epub", "pdf": "read_pdf", "rtf": "read_rtf"}
 
 # OPEN findings: id -> (deviation, domain predicate on the concrete case)
+ODF = ("odt", "odp", "ods", "odg")
+
+
 def _has(c, pred):
     return any(pred(a) for a in c["anchors"])
 
@@ -50,32 +53,42 @@ def _external(a):
     return all(t["mode"] == "external" for t in a["cands"])
 
 
-def _dotted(a):
+def _dotted(a):          # a reference with "." / ".." segments
     return any(t["mode"] == "embed" and ("." in t["segs"] or ".." in t["segs"]) for t in a["cands"])
 
 
-ODF = ("odt", "odp", "ods", "odg")
+def _missing(a):         # a reference to a part that is not in the package
+    return any(t["mode"] == "embed" and t["to"] == 0 for t in a["cands"])
+
+
+def _returned_as_built(c, a):   # frames the unrepaired ODF extractors turn into a record
+    return _external(a) or c["fmt"] == "odg" or not (_dotted(a) or _missing(a))
+
+
 FINDING_DEV = {
-    "KF-C14-01": ("Odf!FrameSizeAsPixelSize", lambda c: c["fmt"] in ODF and bool(c["anchors"])),
+    "KF-C14-01": ("Odf!FrameSizeAsPixelSize", lambda c: c["fmt"] in ODF and _has(c, lambda a: _returned_as_built(c, a))),
     "KF-C14-02": ("Odf!ExternalLinkReturnedEmpty", lambda c: c["fmt"] in ODF and _has(c, _external)),
-    "KF-C14-03": ("Odg!MissingReturnedEmpty", lambda c: c["fmt"] == "odg" and _has(c, lambda a: not _external(a))),
+    "KF-C14-03": ("Odg!MissingReturnedEmpty", lambda c: c["fmt"] == "odg" and _has(c, lambda a: _missing(a) or _dotted(a))),
     "KF-C14-04": ("Odf!HrefVerbatim", lambda c: c["fmt"] in ODF and _has(c, _dotted)),
     "KF-C14-05": ("Epub!ManifestOrder", lambda c: c["fmt"] == "epub" and c["order"] != sorted(c["order"])),
 }
 FIXTURE_FINDING_DEV = {}
 
-# deviations shown to break a theorem (family to run them in, which invariant)
+# deviations shown to break a theorem: (deviation, family, mode, anchors needed for a witness)
 SENSITIVITY = [
-    ("Pptx!AbsoluteUnderBase", "opc2", "cases"), ("Pptx!DotSegmentKept", "opc2", "cases"),
-    ("Pptx!MixedDotDotDropped", "opc2", "cases"), ("Pptx!ImageNumberRestartsPerSlide", "opc2", "cases"),
-    ("Xlsx!BasenameUnderMedia", "opc2", "cases"), ("Docx!PrefixOnly", "opc1", "cases"),
-    ("Docx!RelationshipOrder", "opc1", "cases"), ("Epub!HrefConcat", "epub", "cases"),
-    ("Epub!ManifestOrder", "epub", "cases"), ("Epub!NoPixelSize", "epub", "cases"),
-    ("Odf!HrefVerbatim", "odf", "cases"), ("Odf!ExternalLinkReturnedEmpty", "odf", "cases"),
-    ("Odg!MissingReturnedEmpty", "odf", "cases"), ("Odf!FrameSizeAsPixelSize", "odf", "cases"),
-    ("Ods!MissingCountsInNumbering", "odf", "cases"), ("Pdf!ImageNumberRestartsPerPage", "inline", "cases"),
-    ("Pptx!DotSegmentKept", "opc2", "paths"), ("Pptx!AbsoluteUnderBase", "opc2", "paths"),
+    ("Pptx!ImageNumberRestartsPerSlide", "opc2", "cases", 2), ("Pptx!AbsoluteUnderBase", "opc2", "cases", 1),
+    ("Docx!PrefixOnly", "opc1", "cases", 1), ("Xlsx!BasenameUnderMedia", "opc2", "cases", 1),
+    ("Pptx!DotSegmentKept", "opc2", "paths", 1), ("Epub!ManifestOrder", "epub", "cases", 2),
+    # thorough only
+    ("Pptx!DotSegmentKept", "opc2", "cases", 1), ("Pptx!MixedDotDotDropped", "opc2", "cases", 1),
+    ("Docx!RelationshipOrder", "opc1", "cases", 2), ("Epub!HrefConcat", "epub", "cases", 1),
+    ("Epub!NoPixelSize", "epub", "cases", 1), ("Odf!HrefVerbatim", "odf", "cases", 1),
+    ("Odf!ExternalLinkReturnedEmpty", "odf", "cases", 1), ("Odg!MissingReturnedEmpty", "odf", "cases", 1),
+    ("Odf!FrameSizeAsPixelSize", "odf", "cases", 1), ("Ods!MissingCountsInNumbering", "odf", "cases", 2),
+    ("Pdf!ImageNumberRestartsPerPage", "inline", "cases", 2), ("Pptx!AbsoluteUnderBase", "opc2", "paths", 1),
+    ("Pptx!MixedDotDotDropped", "opc2", "paths", 1), ("Docx!PrefixOnly", "opc2", "paths", 1),
 ]
+QUICK_SENS = 6
 
 
 def gen_cfg(family, mode, max_anchors, nunits, dev=()):
@@ -225,33 +238,40 @@ def run_cases(concs, workers=14):
 
 # ----------------------------------------------------------------------------- TLC side
 def theorems(ctx):
-    ev, v = ctx.ev, ctx.v
-    r = run_tlc("ImagesGen", gen_cfg("opc2", "paths", 1, 1), scratch=ctx.scratch, timeout=900)
-    ev.tlc("ImagesGen paths: segment machine = RFC 3986 normal form, all references <= 4 segments, 3 bases", r)
-    cases = {}
+    """All TLC theorem / sensitivity / enumeration runs, executed concurrently (each is small)."""
+    from concurrent.futures import ThreadPoolExecutor
+    ev = ctx.ev
+    jobs = [("paths", None, "ImagesGen paths: segment machine = RFC 3986 normal form, all references <= 4 segments, 3 bases",
+             gen_cfg("opc2", "paths", 1, 1), None, False)]
     for fam in FAMILY:
-        ma = 2
-        dump = ctx.scratch / f"images-{fam}.dump"
-        r = run_tlc("ImagesGen", gen_cfg(fam, "cases", ma, nunits_of(fam)), scratch=ctx.scratch, dump=dump,
-                    heap="8g", timeout=1500)
-        ev.tlc(f"ImagesGen {fam}: reference extractor satisfies Prop_Images, all cases <= {ma} anchors", r)
-        done = [s for s in iter_dump(dump) if s["pc"] == "done"]
-        cases[fam] = sorted(({"case": from_tla(s["case"]), "out": from_tla(s["out"])} for s in done),
-                            key=lambda c: json.dumps(c, sort_keys=True))
-        if not cases[fam]:
-            raise MachineryError(f"ImagesGen {fam}: no finished state in the dump")
-        ctx.log(f"{fam}: {r.distinct} states, {len(cases[fam])} cases")
-    runs = SENSITIVITY if ctx.thorough else SENSITIVITY[:: 3] + SENSITIVITY[3:4]
-    for dev, fam, mode in runs:
-        r = run_tlc("ImagesGen", gen_cfg(fam, mode, 2 if mode == "cases" else 1, nunits_of(fam), [dev]),
-                    scratch=ctx.scratch, expect_fail=True, timeout=900)
-        ev.tlc(f"ImagesGen sensitivity {fam}/{mode}: {dev} must break the theorem", r, note="expected violation")
-        if not r.violated:
-            raise MachineryError(f"sensitivity run for {dev} ({fam}/{mode}) did not fail: invariant vacuous")
+        jobs.append(("cases", fam, f"ImagesGen {fam}: reference extractor satisfies Prop_Images, all cases <= 2 anchors",
+                     gen_cfg(fam, "cases", 2, nunits_of(fam)), ctx.scratch / f"images-{fam}.dump", False))
+    for dev, fam, mode, need in (SENSITIVITY if ctx.thorough else SENSITIVITY[:QUICK_SENS]):
+        jobs.append(("sens", (dev, fam, mode), f"ImagesGen sensitivity {fam}/{mode}: {dev} must break the theorem",
+                     gen_cfg(fam, mode, need, nunits_of(fam), [dev]), None, True))
     if ctx.thorough:
         for fam in ("opc1", "epub", "odf", "inline"):
-            r = run_tlc("ImagesGen", gen_cfg(fam, "cases", 3, nunits_of(fam)), scratch=ctx.scratch, heap="8g", timeout=2400)
-            ev.tlc(f"ImagesGen {fam}: theorem on all cases <= 3 anchors", r)
+            jobs.append(("big", fam, f"ImagesGen {fam}: theorem on all cases <= 3 anchors",
+                         gen_cfg(fam, "cases", 3, nunits_of(fam)), None, False))
+
+    def go(job):
+        kind, key, name, cfg, dump, fail = job
+        return run_tlc("ImagesGen", cfg, scratch=ctx.scratch, dump=dump, heap="6g", timeout=2400, expect_fail=fail,
+                       workers=4 if kind in ("cases", "big") else 2)
+    with ThreadPoolExecutor(max_workers=6) as ex:
+        results = list(ex.map(go, jobs))
+    cases = {}
+    for (kind, key, name, cfg, dump, fail), r in zip(jobs, results):
+        ev.tlc(name, r, note="expected violation" if fail else "")
+        if fail and not r.violated:
+            raise MachineryError(f"sensitivity run for {key} did not fail: the invariant is vacuous")
+        if kind == "cases":
+            done = [s for s in iter_dump(dump) if s["pc"] == "done"]
+            cases[key] = sorted(({"case": from_tla(s["case"]), "out": from_tla(s["out"])} for s in done),
+                                key=lambda c: json.dumps(c, sort_keys=True))
+            if not cases[key]:
+                raise MachineryError(f"ImagesGen {key}: no finished state in the dump")
+            ctx.log(f"{key}: {r.distinct} states, {len(cases[key])} cases")
     return cases
 
 
@@ -289,7 +309,7 @@ def validate_with_findings(ctx, traces, finding_dev, label):
     """Strict validation; a rejected trace is a KNOWN-FINDING only if it lies in the domain of open findings and
     the as-built model with exactly those findings' deviations accepts it."""
     v, ev = ctx.v, ctx.ev
-    br = validate("ImagesTrace", trace_cfg(()), traces, scratch=ctx.scratch, parallel=14, min_chunk=120, diagnose=40)
+    br = validate("ImagesTrace", trace_cfg(()), traces, scratch=ctx.scratch, parallel=14, min_chunk=120, diagnose=3)
     ev.tlc_counts(f"ImagesTrace: strict validation of {len(traces)} {label} traces", br.distinct, br.states, br.wall_s)
     rejected = [(t, tv) for t, tv in zip(traces, br.verdicts) if not tv.accepted]
     v.ok(len(traces) - len(rejected))
@@ -307,7 +327,7 @@ def validate_with_findings(ctx, traces, finding_dev, label):
             continue
         devs = [open_f[f][0] for f in fids]
         b2 = validate("ImagesTrace", trace_cfg(devs), [t for t, _ in items], scratch=ctx.scratch, parallel=14,
-                      min_chunk=120, diagnose=10)
+                      min_chunk=120, diagnose=0)
         ev.tlc_counts(f"ImagesTrace: as-built validation with {'+'.join(devs)}", b2.distinct, b2.states, b2.wall_s)
         for (t, tv), tv2 in zip(items, b2.verdicts):
             if tv2.accepted:
@@ -400,12 +420,15 @@ def fixture_traces(ctx):
 
 # ----------------------------------------------------------------------------- driver
 def run(ctx):
+    import time
     ev, v = ctx.ev, ctx.v
     rng = random.Random(ctx.seed)
+    t0 = time.time()
     cases = theorems(ctx)
+    ctx.log(f"theorems {time.time() - t0:.0f}s")
 
     concs, meta = [], []
-    cap = None if ctx.thorough else 700
+    cap = None if ctx.thorough else 420
     for fam, fmts in FAMILY.items():
         pool = cases[fam]
         for fmt in fmts:
@@ -417,14 +440,17 @@ def run(ctx):
             for k, c in enumerate(chosen):
                 concs.append(concretise(c["case"], fmt, rng))
                 meta.append((f"{fmt}:{fam}:{k}", c["out"]))
-    nrand = 1500 if ctx.thorough else 150
+    nrand = 1200 if ctx.thorough else 80
     for fam, fmts in FAMILY.items():
         for fmt in fmts:
             for k in range(nrand):
                 concs.append(concretise(random_case(rng, fam), fmt, rng))
                 meta.append((f"{fmt}:rand:{k}", None))
     ctx.log(f"{len(concs)} generated documents ({sum(1 for _, o in meta if o is not None)} from the TLC enumeration)")
+    t0 = time.time()
     obs = run_cases(concs)
+    ctx.log(f"extraction {time.time() - t0:.0f}s")
+    t0 = time.time()
     traces, model_equal = [], 0
     for conc, (tid, out), o in zip(concs, meta, obs):
         if "exc" in o:
@@ -438,6 +464,7 @@ def run(ctx):
             ev.nontrivial((conc["fmt"], json.dumps(header(conc), sort_keys=True)))
     validate_with_findings(ctx, traces, FINDING_DEV, "generated-document")
     ev.replayed(len(traces))
+    ctx.log(f"validation {time.time() - t0:.0f}s")
     for t in traces[:: max(1, len(traces) // 5)]:
         ev.sample({"fmt": t["hdr"]["fmt"], "anchors": t["hdr"]["anchors"], "media": t["hdr"]["media"],
                    "observed": t["ev"][1]})
